@@ -119,3 +119,102 @@ Print Assumptions C03_dhp_retired_conserved.
 Print Assumptions C03_dhp_retired_conserved_detached.
 Print Assumptions C03_dhp_destroy_disposes_all_statement_refuted.
 Print Assumptions C03_dhp_destroy_run_is_dexec_partial.
+
+(** ** smr::destruct( true ) disposes everything that is left (added after the text above was written: the "corrected
+       statement" [C03_dhp_destroy_disposes_all_detached_statement] IS now proved)
+
+    LV.Proofs.DhpConsDRecs: induction over thread_list_ in destroy_recs (the disposer calls of the destructor are the
+    concatenation over thread_list_ of the cells below the cursor of each record's retired array, by the frame of
+    retired_array::fini / thread_hp_storage::clear); LV.Proofs.DhpConsDThm: the permutation from JW and its converse
+    JC at a configuration in which no record is owned. *)
+From Coq Require Import Lia PeanoNat.
+From LV Require Proofs.DhpConsDRecs Proofs.DhpConsDThm.
+
+Section DHP_destroy.
+  Import Model.DhpLang Model.Dhp Proofs.DhpBase Proofs.DhpSeqThm Proofs.DhpHist Proofs.DhpProofsC03 Proofs.DhpConsThm.
+
+  (** from ANY configuration reachable by any sequence of thread choices in which no thread record is owned (every
+      thread has detached), a complete run of smr::destruct( true ) in which no loop runs out of fuel gives to the
+      disposer exactly the retired objects that were not yet disposed: disposer calls before and during destruction
+      together are a permutation of the objects handed to retire() -- every retired object is disposed exactly once,
+      no later than destruction of the singleton *)
+  Theorem C03_dhp_destroy_disposes_all_detached : C03_dhp_destroy_disposes_all_detached_statement.
+  Proof. exact DhpConsDThm.dhp_destroy_disposes_all_detached. Qed.
+
+  (** non-vacuity: two threads that detach at the same time leave work for the destructor.  Thread 1 guards object 5
+      and publishes; thread 0 retires 5 and 6 and runs its detach (scan, help_scan, scan: 6 is disposed, 5 is guarded)
+      up to its last store thread_id_ = null; thread 1 detaches completely (its help_scan skips record 1, which is
+      still owned); thread 0 finishes.  No record is owned, 5 waits in the retired array of the record of thread 0:
+      every hypothesis holds, the destructor finishes without running out of fuel and its only disposer call is 5 *)
+  Example C03_dhp_destroy_nonvacuous :
+    let c := mkCfg 4 2 4 false 200 1 false in
+    let ths := map decode_ops
+                 [[[1]; [15;0;1]; [9;5]; [9;6]; [2]];
+                  [[1]; [3;0]; [5;0;5]; [8;0;1]; [2]]] in
+    let conf := fst (Conc.run 5000 0 (repeat 1%nat 11 ++ repeat 0%nat 45 ++ repeat 1%nat 400) (init_cfg 5000 c ths)) in
+    let d := Conc.run 5000 0 [] (Conc.Cfg (Conc.shared conf)
+                          [compile 5000 (DAct a_begin (fun _ => to_unit (destruct c (S (List.length ths)))))] []) in
+    Forall retire_attached ths /\ Conc.reach (init_cfg 5000 c ths) conf /\
+    flat_map (fun e => retired_ev (snd e)) (Conc.trace conf) = [5%nat; 6%nat] /\ oob (Conc.shared conf) = false /\
+    (forall r, (r < List.length (recs (Conc.shared conf)))%nat -> r_tid (grec (Conc.shared conf) r) = 0%nat) /\
+    snd d = true /\ ~ In (EvCli "outoffuel" []) (map snd (Conc.trace (fst d))) /\
+    disposed_of (Conc.trace conf) = [6%nat] /\ disposed_of (Conc.trace (fst d)) = [5%nat].
+  Proof.
+    cbv zeta. split; [repeat constructor; vm_compute; auto|]. split; [apply Conc.run_reach|].
+    split; [vm_compute; reflexivity|]. split; [vm_compute; reflexivity|].
+    split.
+    { intros r Hr. match type of Hr with (_ < ?n)%nat => assert (El : n = 2%nat) by (vm_compute; reflexivity); rewrite El in Hr end.
+      destruct r as [|[|r]]; [vm_compute; reflexivity|vm_compute; reflexivity|exfalso; lia]. }
+    split; [vm_compute; reflexivity|]. split; [|split; vm_compute; reflexivity].
+    pose (f := fun e : ev => match e with EvCli n [] => String.eqb n "outoffuel" | _ => false end).
+    match goal with |- ~ In _ ?l => assert (E : forallb (fun e => negb (f e)) l = true) by (vm_compute; reflexivity) end.
+    intros H. rewrite forallb_forall in E. specialize (E _ H). discriminate E.
+  Qed.
+End DHP_destroy.
+Print Assumptions C03_dhp_destroy_disposes_all_detached.
+
+(** ** "a reclamation pass that runs while no guard protects a retired object frees it" (DHP)
+
+    [C03_dhp_scan_frees_unguarded_statement_refuted]: the statement of LV.Proofs.DhpProofsC03 over every interleaving,
+    read literally, is false of the model -- it makes a scan of thread t responsible for everything t ever retired, but
+    the retired array belongs to the thread record: an object retired by t while attached to record 0 stays there when
+    t detaches, and a later attach of t may get another record (smr::alloc_thread_data takes the first unowned one).
+    Computed witness in LV.Proofs.DhpConsDScanRefute (3 threads).  Not a defect of the C++ code: the object is freed
+    by the next help_scan that adopts the orphaned record or by ~smr (theorem above).
+    [C03_dhp_scan_frees_unguarded_att_statement]: the corrected statement (objects retired by t since its last
+    attach, which returned the scanned record); NOT proved.
+    [C03_dhp_scan_run_frees_unguarded_partial]: what is proved -- the whole of smr::scan (collection of the hazard
+    cells of every owned record of thread_list_ and of their extension blocks, stage 2), run without interference
+    from ANY memory in which the scanned record has a well-formed retired array, frees every pointer below the
+    cursor that is in no hazard cell.  (The old partial theorem covered stage 2 with an arbitrary hazard list only.)
+    Missing for the corrected statement: the interleaving of the hazard loads with other threads' steps (a guard set
+    after its cell was read is not seen: that is the C02 side) and the link "retired by t since attach r, not
+    disposed => in the array of r" (an ownership invariant over the history, not part of JB). *)
+From LV Require Proofs.DhpSeq Proofs.DhpConsDScan Proofs.DhpConsDScanRefute.
+
+Section DHP_scan.
+  Import Model.DhpLang Model.Dhp Proofs.DhpBase Proofs.DhpSeq Proofs.DhpSeqThm Proofs.DhpHist Proofs.DhpProofsC03.
+
+  Theorem C03_dhp_scan_frees_unguarded_statement_refuted : ~ dhp_scan_frees_unguarded_statement.
+  Proof. exact DhpConsDScanRefute.dhp_scan_frees_unguarded_statement_refuted. Qed.
+
+  Definition C03_dhp_scan_frees_unguarded_att_statement : Prop := DhpConsDScanRefute.dhp_scan_frees_unguarded_att_statement.
+
+  Theorem C03_dhp_scan_run_frees_unguarded_partial : forall (c : cfg), (4 <= c_RB c)%nat -> forall g r chain w,
+    Rinv c g r chain w ->
+    ~ In (EvCli "outoffuel" []) (snd (fst (DhpConsDestroy.dexec (Dhp.scan c r) g))) ->
+    forall p, In p (content g chain w) -> (forall s, slot_get g s <> p) ->
+      In p (flat_map DhpInvB.disposed_ev (snd (fst (DhpConsDestroy.dexec (Dhp.scan c r) g)))).
+  Proof. exact DhpConsDScan.scan_run_frees_unguarded. Qed.
+
+  (** non-vacuity: thread 1 guards object 5, thread 0 retires 5 and 6; a scan of record 0 from the memory reached then
+      frees 6 (in no hazard cell) and keeps 5 *)
+  Example C03_dhp_scan_run_nonvacuous :
+    let c := DhpConsDScan.xc in let g := DhpConsDScan.xg in
+    Rinv c g 0 [0%nat] 2 /\ ~ In (EvCli "outoffuel" []) (snd (fst (DhpConsDestroy.dexec (Dhp.scan c 0) g))) /\
+    content g [0%nat] 2 = [5%nat; 6%nat] /\ (forall s, slot_get g s <> 6%nat) /\
+    flat_map DhpInvB.disposed_ev (snd (fst (DhpConsDestroy.dexec (Dhp.scan c 0) g))) = [6%nat].
+  Proof. exact DhpConsDScan.scan_run_nonvacuous. Qed.
+End DHP_scan.
+Print Assumptions C03_dhp_scan_frees_unguarded_statement_refuted.
+Print Assumptions C03_dhp_scan_run_frees_unguarded_partial.
